@@ -100,6 +100,15 @@ CHECKS = {
         'an oracle checks every traversal entry point, treespec_dict, round trip and register_pytree_node.get(dict) against the current mode.',
    note=TB + 'The mode switch is process-wide and documented as not thread-safe; concurrency is out of scope here (C17).',
    design='§7 C13'),
+ 'C15': dict(
+   technique='Coq proof (fault-injected flatten: dichotomy by induction on the depth budget; no-internal-error; guard-set restoration; map fault) + extracted-model correspondence at sampled fault positions + exhaustive per-callback fault enumeration over the public API on the rebuilt implementation',
+   text='Theorems: for every configuration, tree, depth budget and k, a fault at the k-th callback invocation of flatten (is_leaf calls and custom flatten calls in engine order) yields exactly the injected exception or, when fewer than k callbacks are made, exactly the fault-free result; the instrumented traversal without a fault is the flatten of the other properties; '
+        'flatten on a well-formed object never fails with an internal error (only RecursionError, the documented RuntimeError, the user\'s exception); a mapped function raising at call k+1 gives exactly that exception after k+1 calls; the in-progress marker of hash/repr is removed on success and on failure for every body (and the variant without the removal is refuted); '
+        'only TypeError makes the key sort fall back; a failed (un)registration leaves the registry unchanged. The run compares cmd 14 (fault at k) for flatten / flatten_with_path / tree_iter with the model and enumerates, for ~190 operation x tree scenarios of the public API, a fault at EVERY callback invocation of a fault-free run '
+        '(is_leaf, custom flatten/unflatten, mapped/reduce/visitor functions, key __hash__/__eq__/__lt__/__repr__/__reduce__, metadata __eq__/__repr__): identity of the propagated exception, operands/registry/mode unchanged at identity level, reference counts restored, the repeated call equal to a fault-free one.',
+   note=TB + 'PARTIAL by nature: reference counts, the C++ exception paths and CPython behaviour are observed on the implementation (fault enumeration is exhaustive per scenario up to 40 (thorough: 400) positions, the scenario list is finite); the Coq theorems cover flatten, tree_map and the guard protocol. '
+        'Keys whose __hash__ raises inside an OrderedDict are excluded: CPython\'s own OrderedDict.values() turns that into KeyError before optree runs.',
+   design='§7 C15'),
  'C18': dict(
    technique='Coq proof (recognisers as functions of class traits, equal on every trait vector; cache invariant over all histories with address reuse) + model correspondence on a generated class universe + twin-vs-twin oracle',
    text='Theorems: the repaired Python namedtuple recogniser equals the engine\'s on every trait vector (refuted for the unchanged twin, defect F6); the struct-sequence recognisers agree whenever the n_* counters are not instances of a proper int subclass, and on every class definable in Python; '
